@@ -1,9 +1,9 @@
 package main
 
 import (
-	"os"
 	"fmt"
 	"go/constant"
+	"os"
 	"strings"
 
 	"golang.org/x/tools/go/ssa"
